@@ -47,6 +47,9 @@ TEXTS = [
     "(lambda x: (lambda q, j: x + j)(q=1))(j)", "(lambda x: s.Select(lambda j: t.Select(lambda j: j + x)))(j)",
     "(lambda x: [j + x for j in [j * 2 for j in x]])(j)", "(lambda x: (j + x for (j, k) in s if j > k))(j)",
     "(lambda x: s.Select(lambda j: j + x).Where(lambda j_1: j_1 > x))(j + j_1)",
+    # a renamed parameter of a call that stays a call: its keyword follows
+    "(lambda x: (lambda q, j: x + j)(q=1, j=2))(j)", "(lambda x: (lambda q, j: x + j)(1, j=x))(j)",
+    "(lambda b: (lambda b: (lambda b: K)(b=10))(b.n))(b)", "(lambda x: (lambda j, k: x)(k=1))(j + k)",
 ]
 
 
